@@ -312,11 +312,13 @@ ORDERABLE = [T_INT, T_DEC, T_STR, T_DATE, T_BOOL]
 class QueryGen:
     """Random SELECT statements over the harness schema."""
 
-    def __init__(self, rng, max_depth=3, table='t', obj_keys=True):
+    def __init__(self, rng, max_depth=3, table='t', obj_keys=True, subselects=0.0):
         self.rng = rng
+        self.subselects = subselects     # probability that a WHERE condition involves an IN (SELECT ...) membership
         self.table = table
         self.g = ExprGen(rng, max_depth=max_depth)
         self.obj_keys = obj_keys
+        self._ag = None
 
     # -- pieces
     def key_expr(self):
@@ -341,9 +343,44 @@ class QueryGen:
         t = rng.choice(ORDERABLE)
         return ir.agg(name, [self.g.expr(t, rng.randint(1, 2))], t)
 
+    def agg_call_of(self, t):
+        """An aggregate call of result type t."""
+        rng = self.rng
+        if t == T_INT and rng.random() < 0.4:
+            if rng.random() < 0.5:
+                return ir.agg('count', [], T_INT)
+            return ir.agg('count', [self.g.expr(rng.choice(ANY_TYPES), rng.randint(1, 2))], T_INT)
+        if t in NUMERIC_T and rng.random() < 0.5:
+            return ir.agg('sum', [self.g.expr(t, rng.randint(1, 2))], t)
+        return ir.agg(rng.choice(['min', 'max', 'first', 'last']), [self.g.expr(t, rng.randint(1, 2))], t)
+
+    def rich_agg_expr(self, t=None):
+        """Any operator / function tree whose leaves are aggregate calls and literals (never bare columns)."""
+        rng = self.rng
+        if self._ag is None:
+            outer = self
+
+            class _AggLeaves(ExprGen):
+                def leaf(self, t, lit_ok=True):
+                    if t in ORDERABLE and (self.rng.random() < 0.7 or not lit_ok):
+                        return outer.agg_call_of(t)
+                    return ir.lit(self.rng.choice(LITS[t]), t)
+
+                def small_int(self):
+                    v = self.rng.choice([0, 1, 2, 3, 5, 7, -1, -2])
+                    return ir.lit(v, T_INT) if v >= 0 else ir.un('neg', ir.lit(-v, T_INT), T_INT)
+            self._ag = _AggLeaves(rng, max_depth=3, obj=False)
+        for _ in range(20):
+            e = self._ag.expr(t or rng.choice(ORDERABLE), rng.randint(2, 3))
+            if e.has_agg():
+                return e
+        return self.agg_call()
+
     def agg_expr(self):
         """An aggregate, or arithmetic over aggregates and constants."""
         rng = self.rng
+        if rng.random() < 0.25:
+            return self.rich_agg_expr()
         a = self.agg_call()
         r = rng.random()
         if r < 0.7:
@@ -374,8 +411,30 @@ class QueryGen:
         return ir.and_(ir.bin_('ge', ir.agg('count', [], T_INT), ir.lit(1, T_INT), T_BOOL),
                        ir.bin_('lt', ir.agg('max', [ir.col('d', T_DEC)], T_DEC), ir.lit(D('2.'), T_DEC), T_BOOL))
 
+    def membership(self, name=None, table_mode=None):
+        """x IN / NOT IN (SELECT col [AS name] [FROM #table] [WHERE cond]): the sub-select either names its table or,
+        having no FROM clause, reads the table of the enclosing statement. `name`: output name wanted for the
+        sub-select's only target (a column of that name if there is one, else an alias)."""
+        rng = self.rng
+        types = {n: t for n, t in SCHEMA}
+        if name is not None and name in types and types[name] in (T_INT, T_DEC, T_STR, T_DATE):
+            cname, ctype, alias = name, types[name], None
+        else:
+            ctype = rng.choice([T_INT, T_DEC, T_STR, T_DATE])
+            cname = rng.choice(COLS_BY_TYPE[ctype])
+            alias = name if name is not None and _ident_ok(name) else None
+        sub_where = self.g.expr(T_BOOL, rng.randint(1, 2)) if rng.random() < 0.7 else None
+        mode = table_mode or rng.choice(['inherit', 'inherit', 'named'])
+        sub = ir.Query(targets=[ir.Target(ir.col(cname, ctype), alias)], table=self.table if mode == 'named' else None, where=sub_where)
+        x = ir.col(rng.choice(COLS_BY_TYPE[ctype]), ctype) if rng.random() < 0.7 else self.g.expr(ctype, 2)
+        return ir.bin_(rng.choice(['in', 'in', 'notin']), x, ir.subq(sub), T_BOOL)
+
     def where(self, p=0.5):
-        return self.g.expr(T_BOOL, self.rng.randint(1, 3)) if self.rng.random() < p else None
+        w = self.g.expr(T_BOOL, self.rng.randint(1, 3)) if self.rng.random() < p else None
+        if self.subselects and self.rng.random() < self.subselects:
+            m = self.membership()
+            w = m if w is None else (ir.and_(w, m) if self.rng.random() < 0.5 else ir.or_(m, w))
+        return w
 
     # -- statements
     def simple(self, with_k=True):
@@ -414,11 +473,27 @@ class QueryGen:
         aggs = [self.agg_expr() for _ in range(rng.randint(1, 3))]
         for i, a in enumerate(aggs):
             targets.append(ir.Target(a, f'a{i}' if rng.random() < 0.6 else None))
+        having = None
+        if explicit and keys and rng.random() < 0.4:
+            r = rng.random()
+            if r < 0.3:
+                # the condition is (built from) one of the aggregate targets: the very same expression twice in the statement
+                a = rng.choice(aggs)
+                if a.type == T_BOOL or rng.random() < 0.3:
+                    having = a
+                elif a.type in NUMERIC_T:
+                    having = ir.bin_(rng.choice(['gt', 'le', 'ne']), a, ir.lit(rng.choice([0, 1, 2]), T_INT), T_BOOL)
+                else:
+                    having = ir.un(rng.choice(['isnull', 'isnotnull']), a, T_BOOL)
+            else:
+                having = self.having_expr()
+            if rng.random() < 0.25:
+                # ... and the condition itself is shown as a column
+                targets.append(ir.Target(having, 'hv' if rng.random() < 0.6 else None))
         # shuffle target order, keeping track of key positions
         rng.shuffle(targets)
         names = [ir.target_name(t) for t in targets]
         group_by = None
-        having = None
         if explicit and keys:
             group_by = []
             for k, vis in zip(keys, visible):
@@ -443,8 +518,6 @@ class QueryGen:
                 if k.kind == 'index' and rng.random() < 0.6:
                     dup = ir.Key('expr', targets[k.value - 1].expr)
                 group_by.insert(rng.randrange(len(group_by) + 1), dup)
-            if rng.random() < 0.4:
-                having = self.having_expr()
         return ir.Query(targets=targets, table=self.table, where=self.where(0.4), group_by=group_by, having=having)
 
     def order_keys(self, q, nmax=4, aggregate=False):
